@@ -402,8 +402,21 @@ func startConsumer(e *eval.Expr, kind int) (stop func()) {
 	go func() {
 		defer wg.Done()
 		n := 0
-		for range ch {
+		for ev := range ch {
 			n++
+			// (a consumer looks at what it received: every slot of the stack snapshot and of the arguments)
+			for _, v := range ev.Stack {
+				if v == scribble {
+					n++
+				}
+			}
+			if d, ok := ev.Data.(eval.OpEventData); ok {
+				for _, v := range d.Params {
+					if v == scribble {
+						n++
+					}
+				}
+			}
 			if kind == 2 && n%64 == 0 {
 				time.Sleep(50 * time.Microsecond)
 			}
